@@ -99,8 +99,14 @@ class C17(Base):
             cfg = self.box[idx]
         else:
             from ..driver import draw_cfg, VARIANTS
+            from .base import E1
             v = rng.choice([x for x in VARIANTS])
             cfg = draw_cfg(rng, v, 40 if tier == "quick" else 90, 40)
+            if rng.random() < 0.06:
+                # valid tuples with many steps (large-N stratum of E1)
+                cfg, _ = E1().draw_large(rng, tier)
+                return Plan([(cfg, 0 if cfg["cls"] == "None" else 1,
+                              "every")])
             if "uf" in cfg["p"]:
                 cfg["p"].update(draw_costs(rng))
             u = rng.random()
